@@ -233,7 +233,7 @@ macro_rules! writer_fail_harness {
 writer_fail_harness!(c14_writer_sink_fails_in_first_frame, 0, 7, 13);
 // @verif prop=C14 id=O14.2a/second tier=thorough harness=c14_writer_sink_fails_in_second_frame unwind=12 timeout=2400 stubs="deflate::encode->stored-block model" bound="same; sink fails at call 14 or 27 (second data frame, flushed by try_finish)" fns="Writer::try_finish,Writer::flush_block"
 writer_fail_harness!(c14_writer_sink_fails_in_second_frame, 14, 27);
-// @verif prop=C14 id=O14.2a/eof tier=quick harness=c14_writer_sink_fails_at_eof_marker unwind=12 timeout=1200 stubs="deflate::encode->stored-block model" bound="same; sink fails at call 28 (the EOF marker write) or never (29)" fns="Writer::try_finish"
+// @verif prop=C14 id=O14.2a/eof tier=thorough harness=c14_writer_sink_fails_at_eof_marker unwind=12 timeout=1200 stubs="deflate::encode->stored-block model" bound="same; sink fails at call 28 (the EOF marker write) or never (29)" fns="Writer::try_finish"
 writer_fail_harness!(c14_writer_sink_fails_at_eof_marker, 28, 29);
 
 // @verif prop=C14 id=O14.2b tier=thorough unwind=12 timeout=2400 stubs="deflate::encode->stored-block model" bound="write(2);finish; the sink call carrying the cdata (11) or the EOF marker (14) accepts only 1 byte" fns="Writer::write,Writer::finish,write_frame,Write::write_all"
